@@ -4,9 +4,9 @@
    cancel the parent context at any point of the schedule. *)
 From Coq Require Import List NArith Arith Bool.
 From DS Require Import Base.Bytes Base.Hash Base.Sched Model.Pool Model.VerifyIndex Model.Cancel Model.BulkWrite
-     Model.UnTarIndex Model.ExtractTmp Model.CtxBound
+     Model.UnTarIndex Model.ExtractTmp Model.CtxBound Model.StreamIO
      Proofs.PoolProofs Proofs.VerifyIndexProofs Proofs.CancelProofs Proofs.BulkWriteProofs
-     Proofs.UnTarIndexProofs Proofs.ExtractTmpProofs Proofs.CtxBoundProofs.
+     Proofs.UnTarIndexProofs Proofs.ExtractTmpProofs Proofs.CtxBoundProofs Proofs.StreamIOProofs.
 Import ListNotations.
 
 (* The feeder/worker skeleton after the fix (interrupted flag): for every job count, job body,
@@ -204,6 +204,19 @@ Theorem C07_extract_rename_first_refuted :
     r <> RNil /\ fs' name <> fs name.
 Proof. exact extract_rename_first_refuted. Qed.
 Print Assumptions C07_extract_rename_first_refuted.
+
+(* tar -i (cmd/desync/tar.go runTar): an interrupted or failed Tar goroutine closes the pipe, the chunker sees a
+   clean end and ChunkStream may well return nil -- the command still fails because the Tar result is consulted
+   after a successful ChunkStream; consulting it only in ChunkStream's error branch is refuted. *)
+Theorem C07_run_tar_sound : forall cs_err tar_err sink_err,
+  run_tar true cs_err tar_err sink_err = false -> cs_err = false /\ tar_err = false /\ sink_err = false.
+Proof. exact run_tar_sound. Qed.
+Print Assumptions C07_run_tar_sound.
+
+Theorem C07_run_tar_mutant_refuted :
+  run_tar false false true false = false /\ run_tar true false true false = true.
+Proof. exact run_tar_mutant_refuted. Qed.
+Print Assumptions C07_run_tar_mutant_refuted.
 
 (* The oracle's outcome enumeration (used by the cancel-at-k correspondence) lists only outcomes of
    real runs of the model. *)
